@@ -1149,6 +1149,9 @@ void KFoldCV(MODELINPUT *input,
             else if(algo == _EPLS_ || algo == _EPLS_DA_){
               pthread_create(&threads[th], NULL, EPLSLOOModel_, (void*) &kcv_arg[th]);
             }
+            else if(algo == _LDA_){
+              pthread_create(&threads[th], NULL, LDALOOModel_, (void*) &kcv_arg[th]);
+            }
             else{
               continue;
             }
